@@ -13,7 +13,10 @@
 (***************************************************************************)
 EXTENDS FileMeta, Json
 
-CONSTANTS MaxLen, Mode
+CONSTANTS MaxLen,        \* longest history
+          Modes,         \* subset of {"ops", "tables", "files"}
+          DeepBases, DeepTargets, DeepActNames,   \* alphabet used beyond the first operation
+          FileBases      \* base tables used for complete-file cases
 VARIABLES h, base
 
 P == INSTANCE Preamble
@@ -27,17 +30,19 @@ StepRec(op, r) == [target |-> op.target, act |-> op.act, ok |-> r.ok, exp |-> Ex
 VaryOne(b) == { [BaseTable(b) EXCEPT ![f] = Built(n)] : f \in Required \cup Optional, n \in Lens }
          \cup { [BaseTable(b) EXCEPT ![f] = Absent] : f \in Optional \cup {"priv"} }
          \cup { [BaseTable(b) EXCEPT !["priv"] = Raw(n, "x")] : n \in Lens }
-SliceTables == UNION { VaryOne(b) : b \in BaseTables }
+SliceTables == UNION { VaryOne(b) : b \in {"odd", "even"} }
 
 FileCase(b, c) == [kind |-> "file", base |-> b, init |-> Expect(BaseTable(b)), shape |-> c.shape, entry |-> c.entry,
                    option |-> c.option, outcome |-> c.outcome]
 
 GInit == /\ Init /\ h = <<>>
          /\ base = (CHOOSE b \in BaseTables : BaseTable(b) = tab)
-         /\ Mode = "tables" => \A t \in SliceTables : PrintT(<<"CASE", ToJson([kind |-> "ops", base |-> "slice", init |-> Expect(t), steps |-> <<>>])>>)
-         /\ Mode = "files" => \A c \in P!Cases : PrintT(<<"CASE", ToJson(FileCase(base, c))>>)
-GNext == /\ Mode = "ops" /\ Len(h) < MaxLen
-         /\ \E op \in Ops :
+         /\ ("tables" \in Modes /\ base = (CHOOSE b \in BaseTables : TRUE)) => \A t \in SliceTables : PrintT(<<"CASE", ToJson([kind |-> "ops", base |-> "slice", init |-> Expect(t), steps |-> <<>>])>>)
+         /\ ("files" \in Modes /\ base \in FileBases) => \A c \in P!Cases : PrintT(<<"CASE", ToJson(FileCase(base, c))>>)
+OpsAt(d) == IF d = 0 THEN Ops ELSE { op \in Ops : op.target \in DeepTargets /\ op.act.a \in DeepActNames }
+GNext == /\ "ops" \in Modes /\ Len(h) < MaxLen
+         /\ (Len(h) = 0 \/ base \in DeepBases)
+         /\ \E op \in OpsAt(Len(h)) :
               LET r  == Apply(tab, op)
                   h2 == Append(h, StepRec(op, r))
               IN /\ tab' = r.t /\ gl' = GroupLength(r.t) /\ h' = h2 /\ base' = base
